@@ -4,6 +4,7 @@ import (
 	"fmt"
 	"runtime"
 	"sort"
+	"strings"
 	"sync"
 	"sync/atomic"
 	"testing"
@@ -120,6 +121,7 @@ func runResetRace(t *testing.T, idx int, pl rrPlan) {
 		for i := range old {
 			old[i] = fmt.Sprintf("o%d", i)
 		}
+		old[0] = "" // the zero-value key is a legal key like any other
 		fill := make([]string, pl.fillers)
 		for i := range fill {
 			fill[i] = fmt.Sprintf("f%d", i)
@@ -241,7 +243,7 @@ func runResetRace(t *testing.T, idx int, pl rrPlan) {
 		}
 	}
 	for _, r := range h.recs {
-		if r.kind == "set" && r.key[0] == 'x' {
+		if r.kind == "set" && strings.HasPrefix(r.key, "x") {
 			for _, s := range scans {
 				if s.t == r.t && r.call < s.ret && s.call < r.ret {
 					growth++
@@ -250,7 +252,7 @@ func runResetRace(t *testing.T, idx int, pl rrPlan) {
 				}
 			}
 		}
-		if r.kind == "get" && r.g == pl.resetters+pl.churners && r.key[0] == 'o' {
+		if r.kind == "get" && r.g == pl.resetters+pl.churners && (r.key == "" || strings.HasPrefix(r.key, "o")) {
 			probes++
 		}
 	}
